@@ -52,8 +52,15 @@ def instances(tier, seed):
                                         key="qc/%s" % ("stacked" if stacked else "flat")))
     # (b) operator-side swap
     for jw in (False, True):
-        for model in ("qc1", "qc2", "spin_long", "spin_short"):
-            nsite = {"qc1": 2, "qc2": 4, "spin_long": 3, "spin_short": 3}[model]
+        for model in ("qc1", "qc2", "qc2full", "spin_long", "spin_short"):
+            nsite = {"qc1": 2, "qc2": 4, "qc2full": 4, "spin_long": 3, "spin_short": 3}[model]
+            if model == "qc2full":
+                # all integral classes of two spatial orbitals (three-index (pq|rr) and exchange types included): single swaps only
+                for i in range(nsite - 1):
+                    if not jw and i == 1:
+                        continue      # check_swap_consistency on ~100 symbolic factors exhausts the path budget (400 paths, 350 s): outside the bound
+                    out.append(dict(op="opswap", model=model, jw=jw, swaps=[i], label="try_swap_site %s jw=%s sites %d<->%d" % (model, jw, i, i + 1), key="opswap/%s/%s" % ("jw" if jw else "plain", model)))
+                continue
             for i in range(nsite - 1):
                 out.append(dict(op="opswap", model=model, jw=jw, swaps=[i], label="try_swap_site %s jw=%s sites %d<->%d" % (model, jw, i, i + 1), key="opswap/%s/%s" % ("jw" if jw else "plain", model)))
             if nsite >= 3:
@@ -303,13 +310,13 @@ def transform_op(H, perm, signs=None):
     return out
 
 
-def build_swap_model(ctx, name):
+def build_swap_model(ctx, name, extra=True):
     """(basis list, terms with symbolic factors, symbols)"""
     from renormalizer.model import Op, h_qc, basis as ba
     from symnum import stubs
-    if name in ("qc1", "qc2"):
+    if name in ("qc1", "qc2", "qc2full"):
         n = 1 if name == "qc1" else 2
-        h, e, syms = sym_integrals(ctx, n, "8fold", "none" if n == 1 else "exchange")
+        h, e, syms = sym_integrals(ctx, n, "8fold", "exchange" if name == "qc2" else "none")
         saved = h_qc.np
         if ctx.symbolic:
             h_qc.np = stubs.NpProxy()
@@ -328,7 +335,7 @@ def build_swap_model(ctx, name):
     if name in ("spin_long", "spin_short"):
         p, m, z = ("sigma_+", "sigma_-", "sigma_z") if name == "spin_long" else ("+", "-", "Z")
         basis = [ba.BasisHalfSpin(i, sigmaqn=[0, 1]) for i in range(3)]
-        fs = [ctx.real("f%d" % k, [0.7, -1.3, 0.45, 1.9, -0.6, 1.1][k]) for k in range(6)]
+        fs = [ctx.real("f%d" % k, [0.7, -1.3, 0.45, 1.9, -0.6, 1.1, 0.35, -0.85, 1.45][k]) for k in range(9)]
         if ctx.symbolic:
             for f in fs:
                 ctx.assume(ctx.all([ctx.le(abs(f), 4), abs(f) > 1e-6]), "1e-6 < |f| <= 4")
@@ -340,6 +347,14 @@ def build_swap_model(ctx, name):
             Op("%s %s" % (m, p), [0, 0], fs[3], [1, -1]), Op("%s %s" % (m, p), [2, 2], fs[4], [1, -1]),
             Op("%s %s %s %s" % (m, p, m, p), [0, 0, 1, 1], fs[5], [1, -1, 1, -1]),
         ]
+        if extra:
+            # density-assisted hopping n_r a+_p a_q (three-index integrals (pq|rr)): a number operator next to an odd-parity operator.  Only in the
+            # Jordan-Wigner runs: with them the plain-swap runs (which execute check_swap_consistency on every factor) exhaust the path budget
+            terms += [
+                Op("%s %s %s %s" % (m, p, m, p), [0, 0, 1, 2], fs[6], [1, -1, 1, -1]), Op("%s %s %s %s" % (m, p, p, m), [0, 0, 1, 2], fs[6], [1, -1, -1, 1]),
+                Op("%s %s %s %s" % (m, p, m, p), [0, 1, 2, 2], fs[7], [1, -1, 1, -1]), Op("%s %s %s %s" % (p, m, m, p), [0, 1, 2, 2], fs[7], [-1, 1, 1, -1]),
+                Op("%s %s %s %s %s" % (m, z, m, p, p), [0, 1, 1, 1, 2], fs[8], [1, 0, 1, -1, -1]), Op("%s %s %s %s %s" % (p, z, m, p, m), [0, 1, 1, 1, 2], fs[8], [-1, 0, 1, -1, 1]),
+            ]
         return basis, terms, fs
     if name == "vib":
         basis = [ba.BasisHalfSpin("s"), ba.BasisSHO("v", 1.0, 3), ba.BasisHalfSpin("t")]
@@ -355,7 +370,7 @@ def build_swap_model(ctx, name):
 def h_opswap(ctx, P):
     from renormalizer.model import Model
     from renormalizer.mps import Mpo
-    basis, terms, syms = build_swap_model(ctx, P["model"])
+    basis, terms, syms = build_swap_model(ctx, P["model"], extra=bool(P["jw"]))
     model = Model(basis, terms)
     with _mpo_stubs(ctx):
         mpo = Mpo(model, algo=P.get("algo", "Hopcroft-Karp"))
